@@ -52,3 +52,17 @@ package crypto
 //@   prop C03
 //@   call jws.Sign #* requires [no-private-jwk-header] isNilIface(headers.JWK()) || (did(call (jwk.Key).Raw #1) && !isNilIface(ret(call (jwk.Key).Raw #1)))
 //@   call jws.Sign #* requires [key-from-caller-only] did(call jws.WithKey #1) || did(call jws.WithKey #2)
+
+// ---- C03: a key reference is looked up by exactly the key id asked for ----
+// gorm's query semantics are not modelled: the contract pins the condition (an explicit "kid = ?" with
+// this kid as its only argument - a struct condition would silently drop an empty kid) and that a
+// missing row is reported as ErrPrivateKeyNotFound.
+//@ func (*gorm.DB).WithContext
+//@   trusted
+//@   benign
+//@   ensures result != nil
+//@ func (*Crypto).findKeyReferenceByKid$1
+//@   prop C03
+//@   call (*gorm.DB).Where #1 requires [explicit-condition-on-this-kid] arg(1) == any("kid = ?") && len(arg(2)) == 1 && arg(2)[0] == any(kid)
+//@   call (*gorm.DB).First #1 requires [looked-up-through-that-condition] arg(0) == ret(call (*gorm.DB).Where #1)
+//@   ensures [lookup-failure-is-reported] !isNilIface(ret(call (*gorm.DB).First #1).Error) ==> !isNilIface(result)
